@@ -241,12 +241,21 @@ Proof.
 Qed.
 
 Lemma c17_vi_once seed nc ci b t n :
-  0 <= seed -> 0 <= n ->
-  sample 1 seed nc ci b t n 0 (Z.to_nat n)
-  = Ok (Reset :: SetRng seed [] :: SampleVI n :: repeat Record (Z.to_nat n), n) /\ is_complete n n = true.
+  0 <= seed -> 0 <= ci < nc -> 0 <= n ->
+  sample 1 seed (Some nc) (Some ci) b t n 0 (Z.to_nat n)
+  = Ok (Reset :: SetRng seed [ci] :: SampleVI n :: repeat Record (Z.to_nat n), n) /\ is_complete n n = true.
 Proof.
-  intros Hs Hn. split; [|apply Z.eqb_refl]. unfold sample. cbn [Z.eqb]. unfold sample_vi.
-  destruct (seed <? 0) eqn:E; [lia|]. rewrite add_all_ok by lia. cbn [res_bind fst snd]. rewrite Z.add_0_l, Z2Nat.id by lia. reflexivity.
+  intros Hs Hc Hn. split; [|apply Z.eqb_refl]. unfold sample. cbn [Z.eqb]. unfold sample_vi.
+  rewrite rng_key_in_range by assumption. cbn [res_bind fst snd].
+  rewrite add_all_ok by lia. cbn [res_bind fst snd]. rewrite Z.add_0_l, Z2Nat.id by lia. reflexivity.
+Qed.
+
+(* VI models: n_chains and chain_index are needed now (the generator is derived from them) *)
+Lemma c17_vi_none_refused seed nc ci b t n len0 ret :
+  nc = None \/ ci = None -> sample 1 seed nc ci b t n len0 ret = Err 5.
+Proof.
+  intros H. unfold sample. cbn [Z.eqb].
+  destruct nc, ci; try reflexivity. destruct H as [H|H]; discriminate.
 Qed.
 
 Lemma c17_negative_index_aliases seed nc : 0 <= seed -> 1 <= nc -> rng_key seed nc (-1) = rng_key seed nc (nc - 1).
